@@ -181,17 +181,37 @@ def run_case(case):
         elif cells(y) != exp:
             res.viol("copy_with_new_str_wrong", got=show(cells(y)), expected=show(exp), case=case)
     if x.chunks:
-        sa, e = call(lambda: dict(x.shared_atts))
-        if e is not None:
-            res.viol("shared_atts_raised", error=exc_str(e), case=case)
-        else:
+        # read twice; in between the caller edits the mapping it was handed (it is the caller's to edit:
+        # the unchanged library builds a new dict per read) - the second report is judged like the first
+        for reading in ("first", "after_caller_edited_result"):
+            held = []
+            sa, e = call(lambda: (held.append(x.shared_atts), dict(held[0]))[1])
+            if e is not None:
+                res.viol("shared_atts_raised", error=exc_str(e), reading=reading, case=case)
+                break
+            bad = False
             for k, v in sa.items():
                 for c in model:
                     have = c[1] if k == "fg" else c[2] if k == "bg" else (k in c[3])
                     ok = (have == v) if k in ("fg", "bg") else (bool(have) == bool(v))
                     if not ok:
-                        res.viol("shared_atts_reports_unshared", att=k, value=v, case=case)
+                        res.viol("shared_atts_reports_unshared", att=k, value=v, reading=reading, case=case)
+                        bad = True
                         break
+            if bad:
+                break
+            if reading == "first":
+                res.label("shared_atts_result_edited_by_caller")
+                try:
+                    m = held[0]
+                    first = model[0] if model else None
+                    m["fg"] = 31 if not first or first[1] != 31 else 32
+                    for s_ in STYLES:
+                        if not model or any(s_ not in c[3] for c in model):
+                            m[s_] = True
+                    m.pop("bg", None)
+                except Exception:
+                    pass  # an immutable mapping is fine
     return res
 
 
